@@ -787,6 +787,14 @@ def _eq_all(I, a, b):
         a = a.items
     if isinstance(b, Arr):
         b = b.items
+    if (isinstance(a, SymSeq) and not isinstance(a.length, int)) or (isinstance(b, SymSeq) and not isinstance(b.length, int)):
+        if is_scalar(a) or is_scalar(b):
+            seq, sc = (b, a) if is_scalar(a) else (a, b)
+            return _forall_seq(I, seq, lambda v: v_cmp("Eq", v, sc))
+        sa, sb = seq_of(a), seq_of(b)
+        same_len = v_cmp("Eq", sa.length, sb.length)
+        zipped = SymSeq(sa.length, lambda i: (sa.get(i), sb.get(i)), "zip")
+        return v_and(same_len, _forall_seq(I, zipped, lambda t: v_cmp("Eq", t[0], t[1])))
     if isinstance(a, (tuple, list)) and isinstance(b, (tuple, list)):
         if len(a) != len(b):
             if len(a) == 1:
